@@ -224,7 +224,7 @@ func (c11) Exec(pj json.RawMessage, tape *simrt.Tape, keepLog bool) harness.RunO
 // a later one of its own) after reopening. In this plan Rounds[c] is client c's
 // operation list (the disk is opened once with Rounds[0].N blocks).
 func execConcFlush(p *DPlan, tape *simrt.Tape, keepLog bool) harness.RunOut {
-	s := simrt.New(simrt.Config{Tape: tape, KeepLog: keepLog})
+	s := simrt.New(simrt.Config{DaemonsOK: true, Tape: tape, KeepLog: keepLog})
 	kc := simunix.Config{}
 	if p.Ordered { // reused as "slow flush" switch for this batch
 		kc.SlowFsyncNs = 1_000_000
